@@ -136,7 +136,7 @@ pub fn run(seed: u64, count: usize, outdir: &str) -> std::io::Result<i32> {
                 if vals.iter().any(|v| v.is_nan()) { continue; }
                 // a min / max of zeros of opposite sign, or atan2(0, 0), on the way: the evaluators may differ in the sign of a zero
                 // (C02) and in what atan2 / division make of it; such a pixel has no single reference value
-                if orc.zero_tie || orc.atan00 { continue; }
+                if orc.zero_tie || orc.atan00 || orc.atan_y_zero || orc.abs_of_neg_zero { continue; }
                 let want = vals[g.root.verif_index()];
                 npix += 1;
                 let px = img[y * c.w as usize + x];
